@@ -10,6 +10,7 @@ Request `<op> <args…> => <implementation output>`, answer `model=<…> holds=<
        model = Model/Xerial.readSizes on the described reference stream; holds = equal ∧ the sizes add up.
   rt|out|in <codec> <kind> <len:crc> [..] => ok <len:crc>      model = "ok <len:crc>" (losslessness / interop)
   hist <codec> <what> <len:crc payload> <len:crc stream> => ok <len:crc> <len:crc>
+  ovl <codec> <what> <p1> <p2> <p3> => ok <p1> <p2> <p3> <p1> <p2> <p3>   three writers, then three readers, open at once
   conc <codec> <G> => ok <G> <first failure>
 -/
 import KafkaVerif.Base.Proto
@@ -62,6 +63,10 @@ def step (line : String) : String :=
       if op == "rt" || op == "out" || op == "in" then
         let model := s!"ok {want}"
         answer model (model == impl)
+      else if op == "ovl" then
+        match words req with
+        | [_, _, _, a, b, c] => let model := s!"ok {a} {b} {c} {a} {b} {c}"; answer model (model == impl)
+        | _ => "bad-op"
       else if op == "hist" then
         match words req with
         | [_, _, _, p, s] => let model := s!"ok {p} {s}"; answer model (model == impl)
